@@ -26,11 +26,12 @@ def u32 (b : Bytes) (what : String) : R (Nat × Bytes) := do
 def b16 (b : Bytes) (what : String) : R (Nat × Bytes) := do
   let (x, r) ← takeN 2 b what; pure (leNat x.reverse, r)
 
-/-- ALIGNED PER length determinant (values below 16K) -/
+/-- PER length determinant as RDP uses it: one byte below 128, otherwise two bytes carrying
+    15 bits with the top bit set (X.691 proper stops at 14 bits and fragments above; every
+    RDP implementation writes `length | 0x8000`, so that is what is accepted here) -/
 def perLen (b : Bytes) : R (Nat × Bytes) := do
   let (x, r) ← u8 b "PER length"
   if x < 0x80 then pure (x, r) else do
-    need (x < 0xC0) "PER length: fragmented form"
     let (y, r2) ← u8 r "PER length"
     pure ((x - 0x80) * 256 + y, r2)
 
@@ -276,23 +277,22 @@ def sdrqUserData (initiator : Nat) (d : Bytes) : R Unit :=
 
 def mcsPdu (p : Bytes) : R Unit :=
   match p with
-  | 0x7f :: _ => connectInitial p
-  | [0x04, 0x01, _, 0x01, _] => .ok ()
-  | 0x04 :: _ => .error "erect-domain-request: not two one-byte PER integers and nothing else"
-  | [0x28] => .ok ()
-  | 0x28 :: _ => .error "attach-user-request: trailing bytes"
-  | [0x38, _, _, _, _] => .ok ()
-  | 0x38 :: _ => .error "channel-join-request: size"
-  | 0x64 :: r => do
-    let (ini, r) ← b16 r "initiator"
-    let (_, r) ← b16 r "channelId"
-    let (pr, r) ← u8 r "priority/segmentation"; need (pr = 0x70) "dataPriority/segmentation"
-    let (n, r) ← perLen r
-    need (n = r.length) "send-data-request length ≠ size"
-    sdrqUserData (ini + 1001) r
-  | [0x21, 0x80] => .ok ()
-  | 0x21 :: _ => .error "disconnect-provider-ultimatum: must be exactly two bytes"
-  | _ => .error "unknown MCS PDU"
+  | [] => .error "empty MCS PDU"
+  | t :: r =>
+    if t = 0x7f then connectInitial p
+    else if t = 0x04 then
+      need (r.length = 4 ∧ r.getD 0 0 = 1 ∧ r.getD 2 0 = 1) "erect-domain-request: not two one-byte PER integers and nothing else"
+    else if t = 0x28 then need (r = []) "attach-user-request: trailing bytes"
+    else if t = 0x38 then need (r.length = 4) "channel-join-request: size"
+    else if t = 0x64 then do
+      let (ini, r) ← b16 r "initiator"
+      let (_, r) ← b16 r "channelId"
+      let (pr, r) ← u8 r "priority/segmentation"; need (pr = 0x70) "dataPriority/segmentation"
+      let (n, r) ← perLen r
+      need (n = r.length) "send-data-request length ≠ size"
+      sdrqUserData (ini + 1001) r
+    else if t = 0x21 then need (r = [0x80]) "disconnect-provider-ultimatum: must be exactly two bytes"
+    else .error "unknown MCS PDU"
 
 def negReq (b : Bytes) : R Unit := do
   let (ty, r) ← u8 b "rdpNegReq.type"; need (ty = 1) "rdpNegReq.type"
